@@ -535,16 +535,19 @@ def fam_bcrypt(inp):
         else:
             res, exc = run(lambda: KDF.bcrypt(arg, cost, salt))
         klen = min(len(pw) + 1, 72)
-        emit("bcrypt", (1 + 2 ** (cost + 1)) * 521 * 6.5 + 3000 if eks and exc == "none" else 10, pw=L(pw), bcost=cost, salt=L(salt), out=L(res), exc=exc, eks=bool(eks),
+        emit("bcrypt", 10, pw=L(pw), bcost=cost, salt=L(salt), out=L(res), exc=exc, eks=bool(eks),
              text=text is not None, note=note, key_len=klen)
         return res
 
-    # (a) values recomputed by TLC through EksBlowfish (cost 4: 33 key expansions of 521 Blowfish encryptions)
+    # (a) values recomputed by TLC through EksBlowfish (cost 4: 33 key expansions of 521 Blowfish encryptions; the orchestrator cuts the
+    #     chain into links that are checked separately)
     shapes = [(r.randrange(1, 20), "hi"), (72, "rnd"), (0, None), (71, "hi"), (r.randrange(20, 71), "rnd"), (55, "ascii"), (56, "rnd"), (1, "hi")]
     if QUICK:
         shapes = [r.choice(shapes)] + shapes
     for n, style in shapes[:n_eks]:
         one(pw_no_nul(r, n, style), 4, r.randbytes(16), eks=True)
+    if not QUICK:
+        one(pw_no_nul(r, r.randrange(2, 40), "hi"), 5, r.randbytes(16), eks=True)
     # (b) structure of the result for more costs and password lengths (prefix, cost digits, salt encoding, alphabet, length, canonical last character)
     for n in ([0, 1, 8, 55, 56, 71, 72] if QUICK else list(range(0, 73, 3)) + [71, 72]):
         one(pw_no_nul(r, n), r.choice([4, 4, 5, 6]), r.randbytes(16))
